@@ -1322,6 +1322,22 @@ func (c *Client) reconnect(err error) error {
 	// pending batch as finalized, or if we need to remove it due to the
 	// batch auction no longer including us.
 	if err := c.checkPendingBatch(); err != nil {
+		// The subscriptions still in our map were closed together with
+		// the old stream. We now have a new stream, so the next
+		// closeStream (a retry of this method or Stop) would close
+		// their channels a second time and panic. Replace them by
+		// inactive ones that the next attempt picks up.
+		c.subscribedAcctsMtx.Lock()
+		acctKeys := make(
+			[]*keychain.KeyDescriptor, 0, len(c.subscribedAccts),
+		)
+		for key, subscription := range c.subscribedAccts {
+			acctKeys = append(acctKeys, subscription.acctKey)
+			delete(c.subscribedAccts, key)
+		}
+		c.subscribedAcctsMtx.Unlock()
+		c.keepSubscriptions(acctKeys)
+
 		return err
 	}
 
